@@ -309,4 +309,54 @@ theorem C18_passthrough_collection (c : Collection) (hwf : WF c) :
 example : WF exBad := WF_of_wfB (by decide)
 
 
+/-! ### the adapter table (Tie 1): regenerated on every run by introspection of `soundevent.io.aoef.ADAPTERS` -/
+
+/-- one row of the adapter table as observed on the imported code: the collection type, the number of
+    distinct recording adapters reachable from the collection adapter that `to_aeof` / `to_soundevent`
+    build with a directory, what each of them does with a recording below that directory
+    (`assemble_aoef` stores it relative, fails for one outside; `assemble_soundevent` joins), and that
+    the adapter built without a directory passes paths through on both sides -/
+structure AdapterRow where
+  type : String
+  recAdapters : Nat
+  storesRelative : Bool
+  failsOutside : Bool
+  joinsOnLoad : Bool
+  passThrough : Bool
+  deriving DecidableEq, Repr
+
+def AdapterRow.ok (r : AdapterRow) : Bool :=
+  r.recAdapters == 1 && r.storesRelative && r.failsOutside && r.joinsOnLoad && r.passThrough
+
+/-- the `collection_type`s of the eight constructors of the model -/
+def allTypeNames : List String :=
+  ["recording_set", "dataset", "annotation_set", "annotation_project", "evaluation_set", "prediction_set",
+   "model_run", "evaluation"]
+
+/-- every collection type of the model has a row, and the row is as the model assumes: *one* recording
+    adapter per collection adapter (so every route to a recording goes through it) that got the
+    directory -/
+def ThreadsDir (tbl : List AdapterRow) : Prop :=
+  ∀ t ∈ allTypeNames, ∃ r ∈ tbl, r.type = t ∧ r.ok = true
+
+instance (tbl : List AdapterRow) : Decidable (ThreadsDir tbl) := by unfold ThreadsDir; exact inferInstance
+
+/-- a well-formed adapter table covers every constructor of the model: whatever collection is saved or
+    loaded, its adapter has exactly one recording adapter, which stores relative to the directory, fails
+    outside it, joins on load, and passes paths through without a directory — the shape `save` / `load`
+    of the model have (one `dir`, one recording table) -/
+theorem C18_adapter_table (tbl : List AdapterRow) (h : ThreadsDir tbl) (c : Collection) :
+    ∃ r ∈ tbl, r.type = c.typeName ∧ r.recAdapters = 1 ∧ r.storesRelative = true ∧ r.failsOutside = true ∧
+      r.joinsOnLoad = true ∧ r.passThrough = true := by
+  have hmem : c.typeName ∈ allTypeNames := by cases c <;> simp [Collection.typeName, allTypeNames]
+  obtain ⟨r, hr, ht, hok⟩ := h _ hmem
+  simp only [AdapterRow.ok, Bool.and_eq_true, beq_iff_eq] at hok
+  obtain ⟨⟨⟨⟨h1, h2⟩, h3⟩, h4⟩, h5⟩ := hok
+  exact ⟨r, hr, ht, h1, h2, h3, h4, h5⟩
+
+example : ThreadsDir (allTypeNames.map fun t => ⟨t, 1, true, true, true, true⟩) := by decide
+example : ¬ ThreadsDir ((allTypeNames.map fun t => ⟨t, 1, true, true, true, true⟩).tail) := by decide
+example : ¬ ThreadsDir (allTypeNames.map fun t => ⟨t, if t = "model_run" then 2 else 1, true, true, true, true⟩) := by
+  decide
+
 end SE.Proofs.C18
